@@ -64,14 +64,32 @@ structure Cache (D : Type) where
   markers : Marker D → Bool
   /-- manifests/<name> -/
   links : Nat → Option (Manifest D)
+  /-- blobs/sha256-<digest>-chunked: the staging file of the `staged` variant
+      (proposed_fixes/C09-F10d-stage-chunked-blob.patch); unused otherwise -/
+  staging : D → Option Bytes := fun _ => none
 
-def Cache.empty {D} : Cache D := ⟨fun _ => none, fun _ => false, fun _ => none⟩
+def Cache.empty {D} : Cache D := ⟨fun _ => none, fun _ => false, fun _ => none, fun _ => none⟩
+
+/-- which tree is modelled.  `verify`: every layer is re-hashed before `Link` (in /repo since
+    2258da28d).  `staged`: `Chunked` assembles the chunks in a staging file that is verified as a
+    whole and renamed by `CommitChunked`; the final blob file is never opened for writing. -/
+structure Variant where
+  verify : Bool := false
+  staged : Bool := false
 
 section
 variable {D : Type} [DecidableEq D]
 
 def Cache.setFile (c : Cache D) (d : D) (f : Bytes) : Cache D :=
   { c with files := fun x => if x = d then some f else c.files x }
+
+/-- the file the Chunker writes to -/
+def Cache.work (v : Variant) (c : Cache D) (d : D) : Option Bytes :=
+  if v.staged then c.staging d else c.files d
+
+def Cache.setWork (v : Variant) (c : Cache D) (d : D) (f : Bytes) : Cache D :=
+  if v.staged then { c with staging := fun x => if x = d then some f else c.staging x }
+  else c.setFile d f
 
 def Cache.setMarker (c : Cache D) (m : Marker D) : Cache D :=
   { c with markers := fun x => if x = m then true else c.markers x }
@@ -196,12 +214,12 @@ def prevalidated (c : Cache D) (l : Layer D) : Bool :=
   | some f => f.length == l.size
   | none => false
 
-/-- … else `os.OpenFile(name, O_CREATE|O_WRONLY)`: the final file, created if absent, never
-    truncated -/
-def ensureFile (c : Cache D) (d : D) : Cache D :=
-  match c.files d with
+/-- … else `os.OpenFile(name, O_CREATE|O_WRONLY)`: the final file (the staging file in the
+    `staged` variant), created if absent, never truncated -/
+def ensureFile (v : Variant) (c : Cache D) (d : D) : Cache D :=
+  match c.work v d with
   | some _ => c
-  | none => c.setFile d []
+  | none => c.setWork v d []
 
 def orElse (a : Option ErrClass) (b : ErrClass) : Option ErrClass :=
   match a with
@@ -210,48 +228,49 @@ def orElse (a : Option ErrClass) (b : ErrClass) : Option ErrClass :=
 
 /-- is the marker of this chunk honoured?  Pinned: whenever the marker blob exists.  Repaired
     (`verify`): only while the blob file still covers the chunk. -/
-def markerHit (verify : Bool) (c : Cache D) (l : Layer D) (cs : CS D) : Bool :=
+def markerHit (v : Variant) (c : Cache D) (l : Layer D) (cs : CS D) : Bool :=
   c.markers ⟨l.digest, cs.digest, cs.start, cs.len⟩ &&
-    (!verify || match c.files l.digest with
+    (!v.verify || match c.work v l.digest with
       | some f => decide (cs.start + cs.len < f.length + 1)
       | none => false)
 
 /-- run the main goroutine until it blocks on a full errgroup or reaches `g.Wait()` -/
-def advance (verify : Bool) (limit : Option Nat) : Run D → List (Op D) → Run D
+def advance (v : Variant) (limit : Option Nat) : Run D → List (Op D) → Run D
   | st, [] => { st with ops := [] }
   | st, .beginL _ l big :: rest =>
     if shortcut st.cache l then
-      advance verify limit { st with completed := st.completed + l.size, skipLayer := true } rest
+      advance v limit { st with completed := st.completed + l.size, skipLayer := true } rest
     else
-      advance verify limit { st with cache := ensureFile st.cache l.digest, skipLayer := false,
+      advance v limit { st with cache := (if prevalidated st.cache l then st.cache else ensureFile v st.cache l.digest),
+                                skipLayer := false,
                                      skipChunks := big && st.cancelled, prevalid := prevalidated st.cache l } rest
   | st, .chunk e l cs :: rest =>
-    if st.skipLayer || st.skipChunks then advance verify limit st rest
-    else if markerHit verify st.cache l cs then
-      advance verify limit { st with completed := st.completed + cs.len } rest
+    if st.skipLayer || st.skipChunks then advance v limit st rest
+    else if markerHit v st.cache l cs then
+      advance v limit { st with completed := st.completed + cs.len } rest
     else if !slotFree limit st then { st with ops := .launch e l cs :: rest }
     else if st.cancelled then
-      advance verify limit { st with firstErr := orElse st.firstErr .canceled } rest
-    else advance verify limit { st with inflight := st.inflight ++ [⟨e, l, cs, st.prevalid⟩] } rest
+      advance v limit { st with firstErr := orElse st.firstErr .canceled } rest
+    else advance v limit { st with inflight := st.inflight ++ [⟨e, l, cs, st.prevalid⟩] } rest
   | st, .launch e l cs :: rest =>
     if !slotFree limit st then { st with ops := .launch e l cs :: rest }
     else if st.cancelled then
-      advance verify limit { st with firstErr := orElse st.firstErr .canceled } rest
-    else advance verify limit { st with inflight := st.inflight ++ [⟨e, l, cs, st.prevalid⟩] } rest
+      advance v limit { st with firstErr := orElse st.firstErr .canceled } rest
+    else advance v limit { st with inflight := st.inflight ++ [⟨e, l, cs, st.prevalid⟩] } rest
   | st, .closeL e :: rest =>
-    if st.skipLayer then advance verify limit st rest
+    if st.skipLayer then advance v limit st rest
     else if !slotFree limit st then { st with ops := .closeL e :: rest }
-    else advance verify limit { st with closers := st.closers ++ [e] } rest
+    else advance v limit { st with closers := st.closers ++ [e] } rest
 
 /-- the chunk goroutine after the registry answered -/
-def applyTask (H : Bytes → D) (st : Run D) (t : Task D) : ChunkResp → Run D
+def applyTask (H : Bytes → D) (v : Variant) (st : Run D) (t : Task D) : ChunkResp → Run D
   | .fail e => { st with firstErr := orElse st.firstErr e }
   | .body pieces fin =>
     if t.prevalid then { st with cache := st.cache.setMarker t.key }
     else
-      let f := (st.cache.files t.layer.digest).getD []
+      let f := (st.cache.work v t.layer.digest).getD []
       let r := putLoop H t.cs.digest f t.cs.start t.cs.len [] pieces fin
-      let cache := st.cache.setFile t.layer.digest r.1
+      let cache := st.cache.setWork v t.layer.digest r.1
       match r.2 with
       | none => { st with cache := cache.setMarker t.key, completed := st.completed + t.cs.len }
       | some e => { st with cache := cache, firstErr := orElse st.firstErr e }
@@ -263,24 +282,24 @@ inductive Step where
   | cancel
 deriving Repr
 
-def step (H : Bytes → D) (verify : Bool) (limit : Option Nat) (st : Run D) : Step → Option (Run D)
+def step (H : Bytes → D) (v : Variant) (limit : Option Nat) (st : Run D) : Step → Option (Run D)
   | .release k r =>
     match st.inflight[k]? with
     | none => none
     | some t =>
-      let st1 := applyTask H { st with inflight := st.inflight.eraseIdx k } t r
-      some (advance verify limit st1 st1.ops)
+      let st1 := applyTask H v { st with inflight := st.inflight.eraseIdx k } t r
+      some (advance v limit st1 st1.ops)
   | .cancel =>
     let st1 := { st with cancelled := true, inflight := [],
                          firstErr := if st.inflight.isEmpty then st.firstErr else orElse st.firstErr .canceled }
-    some (advance verify limit st1 st1.ops)
+    some (advance v limit st1 st1.ops)
 
-def runSteps (H : Bytes → D) (verify : Bool) (limit : Option Nat) : Run D → List Step → Option (Run D)
+def runSteps (H : Bytes → D) (v : Variant) (limit : Option Nat) : Run D → List Step → Option (Run D)
   | st, [] => some st
   | st, s :: ss =>
-    match step H verify limit st s with
+    match step H v limit st s with
     | none => none
-    | some st' => runSteps H verify limit st' ss
+    | some st' => runSteps H v limit st' ss
 
 /-- the chunk plan of a layer: one chunk for the whole layer below the threshold, else what the
     chunksums endpoint served -/
@@ -310,6 +329,10 @@ structure Cfg where
       re-hashed before `Link`, a blob that fails is removed; markers need a covering file.
       `false` = the pinned tree. -/
   verify : Bool := false
+  /-- repaired variant for F10d (proposed_fixes/C09-F10d-stage-chunked-blob.patch; on top of `verify`) -/
+  staged : Bool := false
+
+def Cfg.variant (cfg : Cfg) : Variant := ⟨cfg.verify, cfg.staged⟩
 
 /-- what the registry does during one attempt -/
 structure Attempt (D : Type) where
@@ -327,6 +350,46 @@ def layerGood (H : Bytes → D) (c : Cache D) (l : Layer D) : Bool :=
 def Cache.removeFile (c : Cache D) (d : D) : Cache D :=
   { c with files := fun x => if x = d then none else c.files x }
 
+/-- `DiskCache.CommitChunked`: the staging file has exactly the size and digest ⇒ rename it to
+    the blob's name; a staging file that fails is removed; none ⇒ error, nothing touched -/
+def commitStaged (H : Bytes → D) (c : Cache D) (l : Layer D) : Cache D × Bool :=
+  match c.staging l.digest with
+  | none => (c, false)
+  | some p =>
+    if p.length == l.size && decide (H p = l.digest) then
+      ({ c with files := fun x => if x = l.digest then some p else c.files x,
+                staging := fun x => if x = l.digest then none else c.staging x }, true)
+    else ({ c with staging := fun x => if x = l.digest then none else c.staging x }, false)
+
+/-- `verifyLayer` of the `staged` variant: a blob that exists under its final name with the
+    manifest's size is re-hashed (and removed if wrong); otherwise the staged file is committed.
+    A blob that exists with ANOTHER size is not touched unless the staged one is right. -/
+def verifyLayer (H : Bytes → D) (c : Cache D) (l : Layer D) : Cache D × Bool :=
+  match c.files l.digest with
+  | some f =>
+    if f.length == l.size then
+      (if H f = l.digest then (c, true) else (c.removeFile l.digest, false))
+    else commitStaged H c l
+  | none => commitStaged H c l
+
+/-- the loop `for _, l := range layers { verifyLayer }`: stops at the first failure -/
+def verifyAll (H : Bytes → D) : Cache D → List (Layer D) → Cache D × Bool
+  | c, [] => (c, true)
+  | c, l :: ls =>
+    match verifyLayer H c l with
+    | (c1, true) => verifyAll H c1 ls
+    | (c1, false) => (c1, false)
+
+/-- the verification pass before `Link` (none on the pinned tree): the cache after it and whether
+    every layer passed -/
+def verifyPass (H : Bytes → D) (cfg : Cfg) (c : Cache D) (m : Manifest D) : Cache D × Bool :=
+  if cfg.verify && cfg.staged then verifyAll H c m.all
+  else if cfg.verify then
+    match m.all.find? (fun l => !layerGood H c l) with
+    | some l => (c.removeFile l.digest, false)
+    | none => (c, true)
+  else (c, true)
+
 /-- the tail of `Pull` after `g.Wait()` -/
 def finish (H : Bytes → D) (cfg : Cfg) (name : Nat) (m : Manifest D) (st : Run D) : Cache D × Outcome :=
   if !(st.ops.isEmpty && st.inflight.isEmpty) then (st.cache, .stuck)
@@ -334,19 +397,17 @@ def finish (H : Bytes → D) (cfg : Cfg) (name : Nat) (m : Manifest D) (st : Run
     | some e => (st.cache, .err e)
     | none =>
       if st.completed != expected m then (st.cache, .err .incomplete)
-      else if cfg.verify then
-        match m.all.find? (fun l => !layerGood H st.cache l) with
-        | some l => (st.cache.removeFile l.digest, .err .incomplete)
-        | none => (st.cache.link cfg.linkShortcut name m, .ok)
-      else (st.cache.link cfg.linkShortcut name m, .ok)
+      else match verifyPass H cfg st.cache m with
+        | (c1, true) => (c1.link cfg.linkShortcut name m, .ok)
+        | (c1, false) => (c1, .err .incomplete)
 
 def startRun (cfg : Cfg) (c : Cache D) (m : Manifest D) (plans : List (PlanResp D)) : Run D :=
   let st : Run D := { cache := c, ops := layerOps cfg.thr plans 0 m.all }
-  advance cfg.verify cfg.limit st st.ops
+  advance cfg.variant cfg.limit st st.ops
 
 /-- the run of one attempt up to `g.Wait()` returning (`none`: bad script) -/
 def pullRun (H : Bytes → D) (cfg : Cfg) (c : Cache D) (m : Manifest D) (a : Attempt D) : Option (Run D) :=
-  runSteps H cfg.verify cfg.limit (startRun cfg c m a.plans) a.steps
+  runSteps H cfg.variant cfg.limit (startRun cfg c m a.plans) a.steps
 
 /-- `Registry.Pull` -/
 def pull (H : Bytes → D) (cfg : Cfg) (c : Cache D) (a : Attempt D) : Cache D × Outcome :=
